@@ -537,6 +537,9 @@ def c14(res: CheckResult) -> None:
     T.check_ctor(res, ic)
     T.check_meta(res, ic)
     T.check_calls(res, ic)
+    # a parameter named result / OLD is an ordinary parameter where there is no postcondition
+    T.check_misuse(res, ic, only=lambda cell: cell["d"] == "require" and (cell["m"].startswith(("param_result", "param_OLD"))
+                                                                         or cell["m"] in ("kw_result", "kw_OLD")))
     def_unit(res, "decorator stacks with foreign wrappers: one checker, no decorator lost, original reachable",
              list(DF.fam_stacks(res.tier, rng)), ic, rng=rng)
     def_unit(res, "overrides carrying foreign functools.wraps decorators in hierarchies",
